@@ -81,6 +81,9 @@ func c03AttTable(kind string, epoch phase0.Epoch) []c03Duty {
 	return nil
 }
 
+// c03Committee: validator 1 sits in committee 0, validators 2 and 3 in committee 1.
+func c03Committee(v phase0.ValidatorIndex) phase0.CommitteeIndex { return phase0.CommitteeIndex(v / 2) }
+
 func c03PropTable(kind string, epoch phase0.Epoch) []c03Duty {
 	f := phase0.Slot(uint64(epoch) * c03SPE)
 	switch kind {
@@ -150,7 +153,8 @@ func (w *c03World) AttesterDuties(_ context.Context, opts *api.AttesterDutiesOpt
 			continue
 		}
 		f.duties = append(f.duties, d)
-		out = append(out, &apiv1.AttesterDuty{Slot: d.slot, ValidatorIndex: d.val, CommitteeIndex: phase0.CommitteeIndex(d.val % 2), CommitteeLength: 8, CommitteesAtSlot: 2, ValidatorCommitteeIndex: uint64(d.val)})
+		// validators 2 and 3 sit in the same committee (tables with both in one slot: two duties for one slot and committee)
+		out = append(out, &apiv1.AttesterDuty{Slot: d.slot, ValidatorIndex: d.val, CommitteeIndex: c03Committee(d.val), CommitteeLength: 8, CommitteesAtSlot: 2, ValidatorCommitteeIndex: uint64(d.val)})
 	}
 	w.attF = append(w.attF, f)
 	return &api.Response[[]*apiv1.AttesterDuty]{Data: out, Metadata: map[string]any{}}, nil
